@@ -59,7 +59,7 @@ def main():
         print("MANIFEST.json written (jsonschema not importable here; validate with python3-vt)")
 
 CHECKS_NA = {}
-HOOK_COMMITS = []
+HOOK_COMMITS = ["2863da9"]
 
 if __name__ == "__main__":
     main()
